@@ -701,6 +701,7 @@ func drive(args []string) int {
 		}
 	}
 	avoided := 0
+	stopped := ""
 	var journal *os.File
 	if *journalPath != "" {
 		if j, err := os.Create(*journalPath); err == nil {
@@ -752,6 +753,7 @@ func drive(args []string) int {
 			for _, p := range o.problems {
 				fmt.Fprintln(os.Stderr, "invariant:", p)
 				avl = false
+				stopped = "broken invariant: " + p
 			}
 			emit(traceEvent{Op: "check", T: t, Avl: boolp(avl), Contents: &c})
 			return avl
@@ -790,6 +792,7 @@ func drive(args []string) int {
 				if r := w.apply(e); r.panic != "" {
 					fmt.Fprintln(os.Stderr, r.panic)
 					emit(traceEvent{Op: "panic", K: k, Ts: ts})
+					stopped = r.panic
 					goto done
 				}
 				if op == "add" {
@@ -799,14 +802,20 @@ func drive(args []string) int {
 				}
 				o := w.observe(*toks, nil)
 				te := traceEvent{Op: op, K: k, Ts: ts, Avl: boolp(len(o.problems) == 0)}
-				for _, p := range o.problems {
-					fmt.Fprintln(os.Stderr, "invariant:", p)
-				}
 				for _, t := range ts {
 					sizes[t] = len(o.contents[t-1])
 					te.Sizes = append(te.Sizes, sizes[t])
 				}
 				emit(te)
+				if len(o.problems) > 0 {
+					// the tree is no longer a tree the code can be expected to work on: the history ends here
+					// (TLC rejects it at this event, which says avl = false)
+					for _, p := range o.problems {
+						fmt.Fprintln(os.Stderr, "invariant:", p)
+					}
+					stopped = "broken invariant: " + o.problems[0]
+					goto done
+				}
 			case p < 0.50: // begin
 				if len(made) == 0 {
 					continue
@@ -854,6 +863,7 @@ func drive(args []string) int {
 				if r.panic != "" {
 					fmt.Fprintln(os.Stderr, r.panic)
 					emit(traceEvent{Op: "panic", I: j + 1, K: e.K})
+					stopped = r.panic
 					goto done
 				}
 				v := r.v
@@ -878,7 +888,8 @@ func drive(args []string) int {
 	}
 done:
 	bw.Flush()
-	fmt.Printf("{\"events\":%d,\"avoided\":%d}\n", events, avoided)
+	sb, _ := json.Marshal(stopped)
+	fmt.Printf("{\"events\":%d,\"avoided\":%d,\"stopped\":%s}\n", events, avoided, sb)
 	return 0
 }
 
